@@ -209,6 +209,29 @@ func checkC15(c *Ctx) {
 			}
 			c.R.Check(okApp, "R-onion-build", "registration into "+key+" in "+fname(fn), c.Pos(st.Pos()), "append(existing, new…)",
 				sprintf("%s does not append new middlewares at the end of %s: registration order is not execution order", fname(fn), key))
+			// ... and every middleware handed in is registered: the append is not subject to a test of the middleware
+			// (function values have no usable identity: "already registered" by entry point drops distinct closures)
+			filtered := ""
+			for _, g := range flow.NewPostDom(fn).ControlDepsTransitive(st.Block()) {
+				cond := g.If.Cond
+				for {
+					if u, ok := cond.(*ssa.UnOp); ok && u.Op == token.NOT {
+						cond = u.X
+						continue
+					}
+					break
+				}
+				switch x := cond.(type) {
+				case *ssa.Call:
+					filtered = "the result of " + ir.CallName(x)
+				case *ssa.BinOp:
+					if _, isSig := x.X.Type().Underlying().(*types.Signature); isSig {
+						filtered = "a test of the middleware value"
+					}
+				}
+			}
+			c.R.Check(filtered == "", "R-onion-build", "every middleware registered into "+key+" in "+fname(fn), c.Pos(st.Pos()), "the append is unconditional for each middleware handed in",
+				sprintf("%s registers a middleware only depending on %s: middlewares the caller configured are silently dropped and never run", fname(fn), filtered))
 		})
 	}
 	// pending application loops run forward
